@@ -51,6 +51,14 @@ pub(crate) mod verif_responder {
         }
     }
 
+    /// accessors for the server-level harness (the fields are private to this module)
+    pub fn queued(r: &Responder) -> &Vec<(Vec<u8>, SocketAddr)> {
+        &r.requests
+    }
+    pub fn version_of(r: &Responder) -> Version {
+        r.version
+    }
+
     pub fn addr(i: usize) -> SocketAddr {
         SocketAddr::new(IpAddr::V4(Ipv4Addr::new(192, 0, 2, 10 + i as u8)), 40000 + i as u16)
     }
@@ -276,8 +284,8 @@ pub(crate) mod verif_responder {
 
     // ------------------------------------------------------------------ C07: no amplification
     /// A full-size (1024-byte) request whose NONC value is NL bytes long goes through the real
-    /// size gate and parser; if it is accepted it is served in a batch of one and the datagram
-    /// the server would send is measured against the request.
+    /// size gate and parser; if it is accepted, the reply it would draw (closed form, single-request
+    /// batch) must not be longer than the request.
     pub fn amplify_body<const NL: usize>(version: Version) {
         dalek::model_reset();
         ring::rand::model_reset(None);
@@ -323,26 +331,10 @@ pub(crate) mod verif_responder {
             };
             let fits = reply_len <= 1024;
             vassert!(fits, "VERIF:C07:accepted-nonce-length-cannot-make-the-reply-longer-than-the-request");
-            if !fits {
-                // do not also push an over-long nonce through the responder (symbolic execution would
-                // explore that branch regardless of the failed assertion)
-                return;
-            }
-            let seed = [7u8; 32];
-            let mut r = mk_responder(version, &seed, 0, [0u8; 16]);
-            let mut stats: Box<dyn ServerStats> = Box::new(AggregatedStats::new());
-            let mut sock = UdpSocket::model();
-            r.reset();
-            match version {
-                Version::Google => r.add_classic_request(nonce, addr(0)),
-                Version::RfcDraft13 => r.add_ietf_request(&buf[..8], nonce, addr(0)),
-            }
-            r.send_responses(&mut sock, &mut stats);
-            let w = mio::world();
-            vassert!(w.tx.len() == 1, "VERIF:C09:exactly-one-datagram-per-accepted-request");
-            vassert!(w.tx[0].0.len() <= 1024, "VERIF:C07:reply-not-longer-than-the-request");
-            core::mem::forget(stats);
-            core::mem::forget(r);
+            // (the responder itself is not run here: after the parser's merge the nonce length is a
+            // symbolic term and a batch with it does not finish; that the closed form above is the real
+            // reply length is asserted on real replies by c09_batch)
+            core::mem::forget(nonce);
         }
     }
 
@@ -365,9 +357,9 @@ pub(crate) mod verif_responder {
     c07_amplify!(c07_amplify_classic_nonce1000, 1000, Version::Google, 12);
     //@ harness c07_amplify_ietf_nonce900 tier=quick shape="IETF 1024-byte framed request with a 900-byte NONC" must_cover=COVER:request-dropped
     c07_amplify!(c07_amplify_ietf_nonce900, 900, Version::RfcDraft13, 12);
-    //@ harness c07_amplify_classic_nonce64 tier=quick shape="classic 1024-byte request with the regular 64-byte NONC" must_cover=COVER:request-accepted required=no
+    //@ harness c07_amplify_classic_nonce64 tier=quick shape="classic 1024-byte request with the regular 64-byte NONC" must_cover=COVER:request-accepted
     c07_amplify!(c07_amplify_classic_nonce64, 64, Version::Google, 12);
-    //@ harness c07_amplify_ietf_nonce32 tier=quick shape="IETF 1024-byte framed request with the regular 32-byte NONC" must_cover=COVER:request-accepted required=no
+    //@ harness c07_amplify_ietf_nonce32 tier=quick shape="IETF 1024-byte framed request with the regular 32-byte NONC" must_cover=COVER:request-accepted
     c07_amplify!(c07_amplify_ietf_nonce32, 32, Version::RfcDraft13, 12);
     //@ harness c07_amplify_classic_nonce0 tier=quick shape="classic 1024-byte request with an empty NONC" must_cover=COVER:request-dropped
     c07_amplify!(c07_amplify_classic_nonce0, 0, Version::Google, 12);
@@ -402,11 +394,12 @@ pub(crate) mod verif_responder {
     /// K requests with 4-byte nonces (send_responses itself does not restrict nonce lengths) in one
     /// batch: exactly K datagrams, the i-th to the i-th source address, echoing the i-th nonce with
     /// INDX = i -- also when nonces are identical.  Everything else about the reply is left to c09_batch.
-    pub fn pairing_body<const K: usize>(version: Version, same_nonce: bool) {
+    pub fn pairing_body<const K: usize>(version: Version, same_nonce: bool, fail_mask: u32) {
         dalek::model_reset();
         ring::rand::model_reset(None);
         ring::digest::model_reset(false);
         mio::model_reset();
+        mio::world().tx_fail_mask = fail_mask;
         let mut nonces: [[u8; 4]; K] = [[0u8; 4]; K].map(|_| vany_bytes::<4>());
         if same_nonce {
             nonces[1] = nonces[0];
@@ -427,29 +420,43 @@ pub(crate) mod verif_responder {
         }
         r.send_responses(&mut sock, &mut stats);
         let w = mio::world();
-        vassert!(w.tx.len() == K, "VERIF:C09:exactly-one-datagram-per-accepted-request");
+        vassert!(w.tx.len() == K, "VERIF:C09+C02:exactly-one-datagram-per-accepted-request");
         let frame = if version == Version::RfcDraft13 { 12 } else { 0 };
         let mut j = 0;
         while j < K {
             if j < w.tx.len() {
                 let (ref bytes, to, _ok) = w.tx[j];
-                vassert!(to == addr(j), "VERIF:C09:reply-goes-to-the-address-its-request-came-from");
+                vassert!(to == addr(j), "VERIF:C09+C02:reply-goes-to-the-address-its-request-came-from");
                 // reply = {SIG 4, NONC 4, PATH d*W, SREP 4, CERT 4, INDX 4}: header 48 bytes
                 let nonc_at = frame + 48 + 4;
-                vassert!(bytes.len() >= nonc_at + 4, "VERIF:C09:reply-carries-a-nonce");
-                vassert!(le32(bytes, nonc_at) == u32::from_le_bytes(nonces[j]), "VERIF:C09:reply-echoes-its-own-requests-nonce");
+                vassert!(bytes.len() >= nonc_at + 4, "VERIF:C09+C02:reply-carries-a-nonce");
+                vassert!(le32(bytes, nonc_at) == u32::from_le_bytes(nonces[j]), "VERIF:C09+C02:reply-echoes-its-own-requests-nonce");
                 let n = bytes.len();
-                vassert!(le32(bytes, n - 4) as usize == j, "VERIF:C09:index-is-the-requests-position-in-the-batch");
+                vassert!(le32(bytes, n - 4) as usize == j, "VERIF:C09+C02:index-is-the-requests-position-in-the-batch");
             }
             j += 1;
         }
+        // statistics: a send that failed is a failed send, a send that succeeded a response
+        let mut ok_n = 0u64;
+        let mut ok_bytes = 0u64;
+        let mut q = 0;
+        while q < K {
+            if q < w.tx.len() && w.tx[q].2 {
+                ok_n += 1;
+                ok_bytes += w.tx[q].0.len() as u64;
+            }
+            q += 1;
+        }
+        vassert!(stats.total_responses_sent() == ok_n, "VERIF:C17+C09:responses-recorded-equal-datagrams-sent");
+        vassert!(stats.total_bytes_sent() as u64 == ok_bytes, "VERIF:C17+C09:bytes-recorded-equal-bytes-sent");
+        vassert!(stats.total_failed_send_attempts() == K as u64 - ok_n, "VERIF:C17+C09:failed-sends-recorded");
         vcover!(true, "COVER:batch-end");
         core::mem::forget(stats);
         core::mem::forget(r);
     }
 
     macro_rules! c09_pairing {
-        ($name:ident, $k:expr, $ver:expr, $same:expr, $unwind:expr) => {
+        ($name:ident, $k:expr, $ver:expr, $same:expr, $mask:expr, $unwind:expr) => {
             #[cfg_attr(kani, kani::proof)]
             #[cfg_attr(kani, kani::unwind($unwind))]
             #[cfg_attr(kani, kani::stub(<crate::error::Error as std::convert::From<std::io::Error>>::from, crate::verif_support::stub_error_from_io))]
@@ -459,13 +466,67 @@ pub(crate) mod verif_responder {
             #[cfg_attr(kani, kani::stub(crate::key::OnlineKey::make_srep, crate::responder::verif_responder::stub_make_srep))]
             #[cfg_attr(not(kani), test)]
             fn $name() {
-                pairing_body::<$k>($ver, $same);
+                pairing_body::<$k>($ver, $same, $mask);
             }
         };
     }
-    //@ family c09_pairing props=C09 mode=strict mod=responder::verif_responder needs=src/message.rs,src/merkle.rs,src/key/online.rs,src/key/mod.rs,src/grease.rs,src/stats/aggregated.rs,src/stats/mod.rs,src/sign.rs must_cover=COVER:batch-end timeout=900
+    //@ family c09_pairing props=C09,C17,C02 mode=strict mod=responder::verif_responder needs=src/message.rs,src/merkle.rs,src/key/online.rs,src/key/mod.rs,src/grease.rs,src/stats/aggregated.rs,src/stats/mod.rs,src/sign.rs must_cover=COVER:batch-end timeout=900
     //@ harness c09_pairing_classic_k2_same_nonce tier=quick shape="classic, 2 requests with identical 4-byte nonces from two addresses; make_srep stubbed" required=no
-    c09_pairing!(c09_pairing_classic_k2_same_nonce, 2, Version::Google, true, 12);
-    //@ harness c09_pairing_ietf_k2 tier=quick shape="IETF, 2 requests, distinct symbolic nonces; make_srep stubbed" required=no
-    c09_pairing!(c09_pairing_ietf_k2, 2, Version::RfcDraft13, false, 12);
+    c09_pairing!(c09_pairing_classic_k2_same_nonce, 2, Version::Google, true, 0, 12);
+    //@ harness c09_pairing_ietf_k2_first_send_fails tier=quick shape="IETF, 2 requests, distinct symbolic nonces, the FIRST send fails; make_srep stubbed" required=no
+    c09_pairing!(c09_pairing_ietf_k2_first_send_fails, 2, Version::RfcDraft13, false, 1, 12);
+    //@ harness c09_pairing_classic_k3_middle_send_fails tier=thorough shape="classic, 3 requests, the second send fails; make_srep stubbed" required=no
+    c09_pairing!(c09_pairing_classic_k3_middle_send_fails, 3, Version::Google, false, 2, 13);
+
+    // ------------------------------------------------------------------ C02: the IETF leaf is the whole request packet
+    /// add_ietf_request must hash exactly the bytes it is given (the request packet as received,
+    /// 1024..=1500 bytes); add_classic_request exactly the nonce.  The hash model records the
+    /// length and the first 160 bytes of a long input.
+    pub fn leaf_body<const LL: usize>(version: Version) {
+        dalek::model_reset();
+        ring::rand::model_reset(None);
+        ring::digest::model_reset(false);
+        let head: [u8; 159] = vany_bytes::<159>();
+        let mut data = [0u8; LL];
+        data[..159].copy_from_slice(&head);
+        let seed = [3u8; 32];
+        let mut r = mk_responder(version, &seed, 0, [0u8; 16]);
+        r.reset();
+        let before = ring::digest::model_log().n;
+        match version {
+            Version::RfcDraft13 => r.add_ietf_request(&data, vec![0u8; 32], addr(0)),
+            Version::Google => r.add_classic_request(data[..64].to_vec(), addr(0)),
+        }
+        let h = ring::digest::model_log();
+        vassert!(h.n == before + 1, "VERIF:C02:one-leaf-hash-per-queued-request");
+        let q = &h.q[before];
+        let want_len = 1 + if version == Version::RfcDraft13 { LL } else { 64 };
+        vassert!(q.input.len == want_len, "VERIF:C02:leaf-hash-covers-the-whole-request-packet");
+        let got = q.input.bytes();
+        vassert!(got[0] == 0x00, "VERIF:C02:leaf-hash-uses-the-leaf-tweak");
+        let k = vany_index(if want_len - 1 < 159 { want_len - 1 } else { 159 });
+        vassert!(got[1 + k] == data[k], "VERIF:C02:leaf-hash-input-is-the-request-bytes");
+        vcover!(true, "COVER:leaf-end");
+        core::mem::forget(r);
+    }
+    macro_rules! c02_leaf {
+        ($name:ident, $ll:expr, $ver:expr) => {
+            #[cfg_attr(kani, kani::proof)]
+            #[cfg_attr(kani, kani::unwind(12))]
+            #[cfg_attr(kani, kani::stub(<crate::error::Error as std::convert::From<std::io::Error>>::from, crate::verif_support::stub_error_from_io))]
+            #[cfg_attr(not(kani), test)]
+            fn $name() {
+                leaf_body::<$ll>($ver);
+            }
+        };
+    }
+    //@ family c02_leaf props=C02,C03 mode=strict mod=responder::verif_responder needs=src/message.rs,src/merkle.rs,src/key/online.rs,src/key/mod.rs,src/grease.rs,src/stats/aggregated.rs,src/stats/mod.rs,src/sign.rs must_cover=COVER:leaf-end
+    //@ harness c02_leaf_ietf_1024 tier=quick shape="IETF request packet of 1024 bytes (first 159 symbolic)"
+    c02_leaf!(c02_leaf_ietf_1024, 1024, Version::RfcDraft13);
+    //@ harness c02_leaf_ietf_1500 tier=quick shape="IETF request packet of 1500 bytes (largest accepted)"
+    c02_leaf!(c02_leaf_ietf_1500, 1500, Version::RfcDraft13);
+    //@ harness c02_leaf_ietf_1028 tier=quick shape="IETF request packet of 1028 bytes"
+    c02_leaf!(c02_leaf_ietf_1028, 1028, Version::RfcDraft13);
+    //@ harness c02_leaf_classic tier=quick shape="classic: leaf is the 64-byte nonce"
+    c02_leaf!(c02_leaf_classic, 64, Version::Google);
 }
